@@ -210,8 +210,15 @@ def run(chk, replay=None):
         chk.violation("crashfs shim does not build", {"broken": "shim build", "log": outS[-1000:]}, False)
     else:
         for rep in range(1 if tier == "quick" else 3):
+            def inspect(d):
+                o = lib.harness_run("indexfile", [{"mode": "store", "dir": d, "ops": []}], env=henv)[0]
+                ob = o["obs"][0] if o.get("r") == "ok" and o.get("obs") else {}
+                st = ob.get("is", {}) if isinstance(ob, dict) else {}
+                return {"applied": ob.get("applied") if isinstance(ob, dict) else None,
+                        "last_log_index": max([st.get("last_log_index", 0)] + [e[0] for e in (ob.get("log", []) if isinstance(ob, dict) else [])]),
+                        "snapshots": ob.get("snaps") if isinstance(ob, dict) else None}
             oi = nodescen_install.scenario_install_crash_images(binary, rng, _c04.SHIM_SO, _c04.parse_journal, _c04.apply_mut, _c04.write_image,
-                                                                n_images=8 if tier == "quick" else 16)
+                                                                n_images=8 if tier == "quick" else 16, inspect=inspect if ok_h else None)
             n_eval += 1
             if not oi.get("images"):
                 chk.notes.setdefault("inconclusive", []).append({"scenario": "install_crash_images", "errors": oi.get("errors"),
@@ -220,6 +227,15 @@ def run(chk, replay=None):
             nontrivial.add(("install-crash", rep, tuple(oi.get("window", []))))
             for im in oi["images"]:
                 n_eval += 1
+                rcv = im.get("recovered") or {}
+                if rcv.get("applied") is not None:
+                    repro = max([rcv.get("last_log_index") or 0] + [sn[1] for sn in (rcv.get("snapshots") or [])])
+                    if rcv["applied"] > repro:
+                        chk.classify("install-crash-image:applied-past-reproducible",
+                                     "a follower killed during the snapshot install (after file mutation #%d of its journal: %s): the image recovers "
+                                     "last_applied = %d although its catalogued snapshots and its log reproduce the state only up to %d"
+                                     % (im["journal_prefix"], im["tail"][-3:], rcv["applied"], repro),
+                                     {"scenario": "install_crash_images", "image": im, "window": oi.get("window")})
                 if not im.get("follows") or im.get("diff"):
                     chk.classify("install-crash-image",
                                  "a follower killed during the snapshot install (after file mutation #%d of its journal: %s) and restarted next to "
